@@ -23,7 +23,7 @@ INFO = {
                    "inputs are the seven (name, vector) pairs name->field (identitySecret->identity_secret, ... ) of that witness, the "
                    "witness vector is calculate_rln_witness(inputs, graph), and Groth16 is called with (pk.0, r, s, pk.1, "
                    "pk.1.num_instance_variables, pk.1.num_constraints, witness vector) where r and s are two successive draws of one "
-                   "thread_rng. The name table against the bundled graph is C05 R05-3; the verifier's public-input order is C02 R02-3.",
+                   "thread_rng. The name table against the bundled graph is C05 R05-3; the verifier's public-input order is C02 R02-3. R01-7 instance state: the proving key, verifying key and graph of an instance have no writer after construction (who-may-write inventory over the MIR), and generate_rln_proof / get_serialized_rln_witness / get_proof / get_root / get_leaf reach no tree mutator in their resolved call graph.",
     "not_decided": "that a proof produced from a satisfying witness verifies (Groth16, QAP reduction, zkey and graph contents - numeric); "
                    "the wasm32-only entry point that takes an externally computed witness vector (no wasm32 std here: cannot be type-checked)",
     "assumptions": ["arkworks Groth16 completeness for a satisfying assignment", "the bundled zkey and graph belong to the same circuit"],
@@ -254,6 +254,32 @@ def check_generate(ctx, fb, cfg):
     ctx.check(why is None, "R01-4", "generate_proof[%s]" % cfg, "Groth16(pk.0, r, s, pk.1, pk.1.num_instance_variables, pk.1.num_constraints, calculate_rln_witness(inputs(W), graph))", why or "", loc(g))
 
 
+MUTATOR_RX = r"ZerokitMerkleTree>::(set|set_range|update_next|delete|override_range|set_metadata|close_db_connection)$|MerkleTree::<D, H>::(set|set_range|update_next|delete|batch_insert)$|Database>?::(put|put_batch)$"
+
+
+def check_instance_state(ctx, fb, cfg):
+    """R01-7: what a proof is made from cannot change under the prover: the proving key, the verifying key and the graph of an instance are
+    stored only when it is constructed, and the proving entry points (which borrow the tree mutably to read a path) reach no tree mutator"""
+    from .. import treefx
+    for field in ("proving_key", "verification_key", "graph_data"):
+        ws = treefx.field_writers(fb, field, ("rln/src/public.rs", "rln/src/ffi.rs", "rln/src/protocol.rs"))
+        ctx.check(not ws, "R01-7", "writers of RLN.%s[%s]" % (field, cfg), "none outside the constructors' struct literal",
+                  "%s store(s) into RLN.%s after construction: a proof can be made with a key/graph other than the one the verifier key was derived from" % (sorted(ws), field))
+    if cfg == "stateless":
+        return
+    for fn in ("rln::public::RLN::generate_rln_proof", "rln::public::RLN::get_serialized_rln_witness", "rln::public::RLN::get_proof", "rln::public::RLN::get_root", "rln::public::RLN::get_leaf"):
+        it = fb.need(fn)
+        ctx.touch(it)
+        seen, ext, _ = reach(fb, [it.path])
+        bad = sorted(n for n in list(seen) + list(ext) if re.search(MUTATOR_RX, n))
+        ctx.check(not bad, "R01-7", "%s[%s] does not mutate the tree" % (fn.split("::")[-1], cfg), "no tree mutator in its resolved call graph (%d functions)" % len(seen),
+                  "%s reaches %s: producing a proof (or reading the tree) changes the membership tree" % (fn, bad[:3]), loc(it))
+    # positive control: a mutating entry point must reach a mutator, or the regex matches nothing
+    it = fb.need("rln::public::RLN::set_leaf")
+    seen, ext, _ = reach(fb, [it.path])
+    ctx.fixture("R01-7:control[%s]" % cfg, any(re.search(MUTATOR_RX, n) for n in list(seen) + list(ext)), "RLN::set_leaf must reach a tree mutator")
+
+
 def run(ctx):
     cfgs = ["default", "stateless"] if ctx.tier == "quick" else ["default", "stateless", "optimal", "arkzkey"]
     ctx.prefetch(cfgs + ["fixtures"])
@@ -268,6 +294,7 @@ def run(ctx):
             check_request(ctx, fb, cfg)
         k += check_constructors(ctx, fb, cfg)
         check_generate(ctx, fb, cfg)
+        check_instance_state(ctx, fb, cfg)
     # R01-6 (shared with C12 R12-2): the software gates reject nothing the circuit can satisfy: message_id_range_check
     # returns Ok exactly when message_id < user_message_limit (no further condition on the limit or the id)
     from . import c12
